@@ -163,7 +163,7 @@ tanks then reservoirs for the sources), `run_sim` seeds the previously-isolated 
 statement skeletons `initGraph` / `getCsrDataIndex` / `updateGraph` / `getIsolated` transliterate, the head of `run_sim` seeds,
 builds the graph and takes the reference points unconditionally and in that order, and the loop body of `run_sim` calls them in the order `runPass` is written for. -/
 theorem python_shape_is_reference :
-    Gen.iter = Prog.refIter ∧ Gen.updateProg = Prog.refUpdate ∧ Gen.isolatedToks = Prog.refIsolatedToks ∧
+    Gen.iter = Prog.refIter ∧ Gen.updateProg = Prog.refUpdate ∧ Gen.isolatedProg = Prog.refIsolated ∧
     Gen.initToks = Prog.refInitToks ∧ Gen.csrIndexToks = Prog.refCsrIndexToks ∧ Gen.headToks = Prog.refHeadToks ∧
     Gen.loopToks = Prog.refLoopToks := by decide
 
@@ -178,6 +178,17 @@ theorem update_program_means_updateGraph {s : Sim} (hs : s.Static) (cur : Nat) (
   obtain ⟨k0, hk0, _⟩ := hs.2.2.2.2.2.1 e he
   rw [hnil] at hk0
   cases hk0
+
+/-- **isolated_program_means_getIsolated**: interpreting the statement tree parsed from `_get_isolated_junctions_and_links`
+(clear the flags of the previous sets, all-ones indicator, the compiled search, ids left at 1, flag each such junction and each of
+its links, remember the new sets) on ANY simulator state gives exactly `getIsolated`; and the model updater is handed exactly
+(the sets of the previous solve, the sets just computed). -/
+theorem isolated_program_means_getIsolated (s : Sim) :
+    Prog.applyI s (Prog.execI s Gen.isolatedProg (Prog.ISt.ofSim s)) = getIsolated s ∧
+    (Prog.execI s Gen.isolatedProg (Prog.ISt.ofSim s)).handed =
+      some ((s.prevIsoJ, s.prevIsoL), ((getIsolated s).prevIsoJ, (getIsolated s).prevIsoL)) := by
+  rw [python_shape_is_reference.2.2.1]
+  exact ⟨Prog.execI_ref s, Prog.execI_ref_handed s⟩
 
 /-! ## 6. run level: every reported step, pauses and restarts included -/
 
